@@ -59,7 +59,7 @@ func ruleFlows(r *core.Run, prop string) {
 			}
 			n++
 			cnt[e.Method]++
-			key := core.Key("E7-flow", r.P.Name(f), fmt.Sprintf("%s#%d", e.Method, cnt[e.Method]))
+			key := core.Key("E7-flow", r.KeyName(f), fmt.Sprintf("%s#%d", e.Method, cnt[e.Method]))
 			var args []string
 			for _, a := range e.Args {
 				args = append(args, normT(a.String()))
@@ -199,7 +199,7 @@ func ruleShardReleaseCallers(r *core.Run) {
 				continue
 			}
 			n++
-			key := core.Key("E7-release", r.P.Name(f), fmt.Sprintf("ShardRelease#%d recipient", i+1))
+			key := core.Key("E7-release", r.KeyName(f), fmt.Sprintf("ShardRelease#%d recipient", i+1))
 			sp, sh := normT(t.Args[0].String()), normT(t.Args[1].String())
 			if sh == "nil" {
 				r.Discharge("E7-release", key, r.P.Pos(call.Pos()), "nil shard: settles the caller's reward only, releases nothing")
